@@ -896,6 +896,10 @@ class Engine:
             if isinstance(op, (ast.LShift, ast.BitOr, ast.BitAnd, ast.RShift)):
                 return self.reg.int_bitop(self, st, op, a, b, node)
         if isinstance(op, ast.BitOr):
+            if a.ty == TSpace and isinstance(b.ty, TEmpty) and b.ty.kind == "dict":
+                return a
+            if b.ty == TSpace and isinstance(a.ty, TEmpty) and a.ty.kind == "dict":
+                return b
             if a.ty == TSpace and b.ty == TSpace:   # dict union: right operand wins
                 from . import theory as _T
                 return Val(TSpace, _T.union(a.t, b.t))
@@ -909,6 +913,8 @@ class Engine:
         if isinstance(op, ast.BitAnd) and isinstance(a.ty, TSet) and a.ty == b.ty:
             k = z3.Const(fresh_name("k"), a.ty.elem.sort())
             return Val(a.ty, z3.Lambda([k], z3.And(a.t[k], b.t[k])))
+        if isinstance(op, ast.Sub) and isinstance(a.ty, TSet) and isinstance(b.ty, TEmpty):
+            return a
         if isinstance(op, ast.Sub) and isinstance(a.ty, TSet) and a.ty == b.ty:
             k = z3.Const(fresh_name("k"), a.ty.elem.sort())
             return Val(a.ty, z3.Lambda([k], z3.And(a.t[k], z3.Not(b.t[k]))))
@@ -963,6 +969,10 @@ class Engine:
         if isinstance(op, (ast.In, ast.NotIn)):
             r = self.contains(b, a, st, node)
             return r if isinstance(op, ast.In) else z3.Not(r)
+        if isinstance(a.ty, THelper) or isinstance(b.ty, THelper):
+            r = self.reg.compare(self, st, op, a, b, node)
+            if r is not None:
+                return r
         if a.ty == TInt and b.ty == TInt:
             return {ast.Eq: lambda: a.t == b.t, ast.NotEq: lambda: a.t != b.t, ast.Lt: lambda: a.t < b.t,
                     ast.LtE: lambda: a.t <= b.t, ast.Gt: lambda: a.t > b.t, ast.GtE: lambda: a.t >= b.t}[type(op)]()
@@ -982,6 +992,9 @@ class Engine:
         raise OutOfSubset(f"comparison {type(op).__name__} on {a.ty}, {b.ty}")
 
     def equals(self, a, b, st):
+        r = self.reg.equals(self, st, a, b)
+        if r is not None:
+            return r
         if isinstance(a, _StrLit) and isinstance(b, _StrLit):
             return z3.BoolVal(a.s == b.s)
         if isinstance(a, _StrChoice) and isinstance(b, _StrLit):
